@@ -58,7 +58,7 @@ def _twins():
 DATASETS.append(_twins())
 N_MAIN = 2          # the sequence families run on the first two datasets; the third has its own shards
 PRE_QUICK = ["log_squared_euclidean", "euclidean", "canberra", "kullback_leibler", "jaccard",
-             "chord", "hamming", "gaussian"]
+             "chord", "hamming", "gaussian", "jeffreys", "statistic"]
 OPS = ["save", "load", "predict_orig", "predict_loaded", "save_loaded"]
 # pre-computed mode only: the distance FILE is rewritten with other numbers after the model read it
 # (a saved model must not depend on that file any more)
